@@ -71,6 +71,40 @@ CHECKS = {
         "empty conjunctions/alternatives/arch lists/restriction groups are outside the domain "
         "(the text format cannot express them); profiles are lower-case",
         "DESIGN.md 4/C13"),
+    "C18": (
+        "bounded-exhaustive enumeration of small (old,new) pairs x 2 independent differs x 8 script "
+        "spellings x str/bytes + Hypothesis pairs and one-corruption scripts (+ diff -e as a second "
+        "script source); oracle: patched == new, ValueError for malformed/unterminated scripts",
+        "generated-input search with a differential oracle (scripts come from an independent "
+        "longhand LCS differ, difflib and diff -e; the result must equal the target lines) and a "
+        "rejection oracle for syntactically corrupted scripts; a search, not a proof",
+        "trusts the independent differ/ed model (vcheck/model/c18_eddiff.py; a mismatch between it "
+        "and the target is a harness error); only syntactic malformations count as malformed",
+        "DESIGN.md 4/C18"),
+    "C19": (
+        "Hypothesis-generated publication histories x local start states, with EVERY fault plan "
+        "enumerated per history (patch replaced/truncated/missing/wrong, index missing/broken/"
+        "wrong, k-th write, open, rename failing, two-fault plans); oracle: converged via the patch "
+        "chain or full download, or raised with the local file byte-identical and no temp file left",
+        "fault enumeration: for each generated history and start state the complete set of fault "
+        "plans is executed against a file:// repository in a per-case temp dir with faults injected "
+        "from the harness (unittest.mock); outcome judged by a safety/convergence predicate",
+        "expectations depend on faults that were observed to fire; for index damage the statement "
+        "does not name, either outcome (converged / raised with local intact) is accepted; mocks and "
+        "temp dirs are checked not to outlive a case",
+        "DESIGN.md 4/C19"),
+    "C20": (
+        "bounded-exhaustive enumeration of all 3-step (thorough: 4-step) derivation/insert "
+        "histories + Hypothesis op-list histories over a pool of databases (+ RuleBasedStateMachine "
+        "in thorough); oracle: reference relation M compared after every step, dual model M' for the "
+        "one listed known finding",
+        "model-based generated-input search: every database in the pool is compared with a reference "
+        "relation after every step; sharing classes follow the docstrings; a deviation is tolerated "
+        "only if it matches exactly the listed known finding (insert stores the characters of the "
+        "package name) - anything else is a violation; a search, not a proof",
+        "trusts the relation model (vcheck/model/c20_relation.py); known_findings.json lists "
+        "insert-chars (the repository's own tests assert the buggy value, so it cannot be repaired)",
+        "DESIGN.md 4/C20"),
 }
 
 NOT_YET = "check not built yet in this round (planned; see DESIGN.md section 4)"
